@@ -60,10 +60,16 @@ def main():
         else:
             rc, o = sh(["g++"] + demo_flags(demo) + ["-I", wt + "/include", demo, "-o", wt + "/demo_mut"])
             res["demo_compiles_mutant"] = rc == 0
-            try:
-                rc, o = sh([wt + "/demo_mut"], cwd=wt, timeout=300)
-            except subprocess.TimeoutExpired:
-                rc, o = 124, "timeout"
+            if rc != 0 and pid == "C20":
+                # C20 is about compiling: a demonstration that no longer compiles *is* the failure
+                res["demo_compiles_mutant"] = True
+                res["demo_fails_by_not_compiling"] = True
+                rc = 1
+            else:
+                try:
+                    rc, o = sh([wt + "/demo_mut"], cwd=wt, timeout=300)
+                except subprocess.TimeoutExpired:
+                    rc, o = 124, "timeout"
         res["demo_mutant_rc"] = rc
         res["demo_mutant_tail"] = o[-300:]
         rc, o = sh(f"cmake -S {wt} -B {wt}/_build -G Ninja -DBUILD_TESTS=ON -DCMAKE_BUILD_TYPE=RelWithDebInfo -DCMAKE_CXX_FLAGS=-Wno-error >/dev/null && cmake --build {wt}/_build 2>&1 | tail -2 && ctest --test-dir {wt}/_build -j8 --timeout 300 2>&1 | tail -3")
